@@ -109,6 +109,13 @@ func buildC14(tier string, seed int64) *Family {
 			insts = append(insts, mk("H_value", f, mp, nv))
 		}
 	}
+	// name functions evaluated once per candidate inside a predicate
+	for _, x := range []string{"//*[name(..) = 'a']", "//*[local-name(*) = 'a']", "//*[namespace-uri(*) = 'u1']", "//*[name(@*) = 'p:a']", "//*[namespace-uri(..) != '']",
+		"//*[local-name(following-sibling::*) = 'b']", "//*[name() = name(..)]"} {
+		for _, nv := range navs {
+			insts = append(insts, mk("H_nodeset", x, "none", nv))
+		}
+	}
 	wrong := func(text, wrongText, nsmap, nav string) *vm.Instance {
 		in := mk("H_nodeset", text, nsmap, nav)
 		in.ID = "canary " + text + " vs " + wrongText
